@@ -785,7 +785,10 @@ class E1B:
                 e2[dest["l"]] = dv
                 return [(tg, e2, st)]
         if key == "std::ops::Try::branch" and argv and argv[0] is not TOP and argv[0][0] == "var":
-            return [out(("var", argv[0][1], TOP))]
+            # Result: Ok (0) -> Continue (0), Err (1) -> Break (1).  Option: None (0) -> Break (1), Some (1) -> Continue (0)
+            is_option = "option::Option" in (res or "") or any("option::Option" in (x or "") for x in (fr.get("substs") or []))
+            idx = argv[0][1]
+            return [out(("var", (1 - idx) if is_option else idx, argv[0][2] if is_option and idx == 1 else TOP))]
         if key == "std::ops::FromResidual::from_residual":
             return [out(("var", 1, TOP))]
         target = None
